@@ -904,8 +904,12 @@ class VmapBatchHandler:
         new_config = self.config.with_sample_shape(new_sample_shape)
         result = create_sample_primitive(new_config)(*vector_args)
 
-        # Return with appropriate output axes
-        out_axes = (0 if n or axis_size else None,)
+        # Return with appropriate output axes: lanes taken from batched parameters
+        # come after the site's own sample dimensions.
+        if n is not None:
+            out_axes = (len(self.config.sample_shape),)
+        else:
+            out_axes = (0 if axis_size else None,)
         return (result,), out_axes
 
     def _compute_outer_batch_dim(self, n, axis_size):
